@@ -12,7 +12,9 @@ proof          : coq/theories/Props/C09.v about the executable models
 correspondence : Seq, L1D, Avg, Avg1D+pending and the Integrator (incl. ask(n, tell_pending=False): the real learner is
                  observed after the rolled-back call) vs the real classes on histories rich in non-committing asks,
                  compared step by step inside Coq; the other models are tied by their owning checks (C15, C18, C04)
-search         : twin oracle on the REAL classes, all learner types and both wrappers: at every visited state
+search         : twin oracle on the REAL classes, all learner types, both wrappers and wrappers INSIDE wrappers (BalancingLearner
+                 over DataSavers, DataSaver over a BalancingLearner, BalancingLearner over BalancingLearners, three levels; the
+                 snapshot reads data / pending points / losses from every inner learner object): at every visited state
                  ask(n,False) twice -> same answer, snapshot unchanged, an untouched twin (built by replaying the
                  history, never by copying) answers a common continuation identically; ask(n,True) on a twin returns
                  the same points/improvements and leaves the state of ask(n,False)+tell_pending(each)
